@@ -111,6 +111,7 @@ func runC07(tb stat.TB, c c07Case) {
 	bases := c07Bases{}
 	nt := false
 	known := false
+	planted := 0
 	// judge checks the backend calls of the request(s) just made; used lists the
 	// paths of the handles those requests named (a path must be one of them or
 	// one of them plus a single validated component).
@@ -254,13 +255,25 @@ func runC07(tb stat.TB, c c07Case) {
 				if len(rq.Name) > 0 {
 					ln = links[int(rq.Name[0])%len(links)]
 				}
+				if len(rq.Name) >= 2 && !strings.ContainsRune(name, 0) {
+					// plant the hostile string itself, out of band, as the target of a link in the backend
+					cand := fmt.Sprintf("planted%d", planted)
+					planted++
+					if _, exists := v.PeekLstat("/" + cand); !exists {
+						ln = cand
+						v.SeedSymlink("/"+ln, name, 0, 0)
+						if c07BadRelTarget(name) {
+							nt = true
+						}
+					}
+				}
 				r := s.nfs(nfsx.ProcLookup, nfsx.ArgsDirop(root, ln))
 				if r.Status == nfsx.OK {
 					used = append(used, "/"+ln)
 					bases.absorb(s.e.NFS)
 					rl := s.nfs(nfsx.ProcReadlink, nfsx.ArgsFh(r.Fh))
 					if rl.Status == nfsx.OK && c07BadRelTarget(rl.Link) {
-						if stat.Violate(tb, id, check, "readlink-returns-dotdot-target", c, "READLINK of pre-seeded /%s returned the relative target %q", ln, rl.Link) {
+						if stat.Violate(tb, id, check, "readlink-returns-dotdot-target", c, "READLINK of /%s (link planted in the backend) returned the relative target %q", ln, rl.Link) {
 							known = true
 						}
 						return
